@@ -117,12 +117,16 @@ func dhistObs(b []byte, ops []*Sx) *Sx {
 		return sl(sl(sy("dec"), d))
 	}
 	results := make([]*Sx, 0, len(ops))
+	var kept []keptSlice
 	for _, o := range ops {
 		var res *Sx
 		switch o.Y {
 		case "marshal":
 			res = guard(func() *Sx {
 				out, err := rtcp.Marshal(ps)
+				if err == nil {
+					kept = append(kept, keptSlice{out, append([]byte(nil), out...)})
+				}
 				return bytesRes(append([]byte(nil), out...), err)
 			})
 		case "marshalrev":
@@ -132,6 +136,9 @@ func dhistObs(b []byte, ops []*Sx) *Sx {
 					rev[len(ps)-1-i] = p
 				}
 				out, err := rtcp.Marshal(rev)
+				if err == nil {
+					kept = append(kept, keptSlice{out, append([]byte(nil), out...)})
+				}
 				return bytesRes(append([]byte(nil), out...), err)
 			})
 		case "each":
@@ -178,5 +185,5 @@ func dhistObs(b []byte, ops []*Sx) *Sx {
 	}
 	final := guard(func() *Sx { return packetsSx(ps) })
 	return sl(sl(sy("dec"), d), sl(sy("results"), sl(results...)), sl(sy("final"), final),
-		sl(sy("input"), sbool(bytes.Equal(before, back))))
+		sl(sy("input"), sbool(bytes.Equal(before, back))), sl(sy("stable"), sbool(keptStable(kept))))
 }
